@@ -11,11 +11,15 @@
    "One segment per operator" and "operators only have operators of the same pipeline as parents" hold by
    construction of this representation (the correspondence check reads both from the real objects).
 
-   Assumptions that are NOT theorems here: numpy's Generator.choice is the inverse-CDF function [choice_of]
-   of a uniform u in [0,1); numpy's normal(loc) is loc + z for a standard normal z, symmetric about 0. *)
-From Coq Require Import List ZArith QArith Arith.
+   Assumptions that are NOT theorems here: numpy's normal(loc) is loc + z for a standard normal z, symmetric
+   about 0; the doubles of the bit generator are uniform on [0,1). numpy's Generator.choice is no longer a free
+   input everywhere: [choice_float] (Model/Generator.v) is what numpy computes in binary64 from the one uniform
+   double u it draws - checked against numpy on every class draw of the correspondence stream G-gen-u
+   (kind 25, gen_run_u) - and the last section relates it to the exact inverse CDF [choice_of]. *)
+From Coq Require Import List ZArith QArith Qabs Arith.
 Import ListNotations.
-From Eudoxia Require Import Num.Rnd64 Model.Types Model.Generator Proofs.GeneratorFacts.
+From Eudoxia Require Import Num.Rnd64 Model.Types Model.Generator Proofs.GeneratorFacts Proofs.FloatBoundFacts
+  Proofs.ChoiceFloatFacts.
 Close Scope Q_scope.
 Close Scope Z_scope.
 
@@ -229,4 +233,166 @@ Proof. vm_compute. split; reflexivity. Qed.
 Example C15_ex_choice :
   (choice_of [3 # 10; 1 # 10; 6 # 10] (35 # 100), choice_of [3 # 10; 1 # 10; 6 # 10] (4 # 10),
    choice_of [1; 0; 0] (999 # 1000))%Q = (1, 2, 0).
+Proof. vm_compute. reflexivity. Qed.
+
+(* ---- priorities: choice as numpy computes it in binary64 (choice_float), Proofs/ChoiceFloatFacts.v ----
+   choice_float probs u: cdf = cumsum of probs with one rounding per addition; every entry divided by the last
+   one and rounded; the index is the first entry that exceeds u. probs is what the generator passes as p=
+   (prio_probs of the three configured probabilities). Theorems hold for arbitrary rational probs, in
+   particular for doubles. *)
+
+(* (a) the index is a valid class for every u < 1 (the last float cdf entry is exactly 1) *)
+Theorem C15_choice_float_in_range : forall probs u,
+  Forall (fun p => 0 <= p)%Q probs -> (0 < sumQl probs)%Q -> (u < 1)%Q ->
+  choice_float probs u < length probs.
+Proof. exact ChoiceFloatFacts.choice_float_in_range. Qed.
+Print Assumptions C15_choice_float_in_range.
+
+(* (b) a class whose probability is 0 is never chosen, whatever the other probabilities are: its float cdf
+   entry is bit-identical to the previous one (entry 0: it is 0 <= u); this includes the last class *)
+Theorem C15_choice_float_zero_prob_never : forall probs u i,
+  i < length probs -> (nth i probs 0 == 0)%Q -> (0 <= u)%Q -> choice_float probs u <> i.
+Proof. exact ChoiceFloatFacts.choice_float_zero_prob_never. Qed.
+Print Assumptions C15_choice_float_zero_prob_never.
+
+(* (c) the index is monotone in u *)
+Theorem C15_choice_float_monotone : forall probs u u',
+  (u <= u')%Q -> choice_float probs u <= choice_float probs u'.
+Proof. exact ChoiceFloatFacts.choice_float_monotone. Qed.
+Print Assumptions C15_choice_float_monotone.
+
+(* (d) float cdf entry k is the exact cumulative probability e_k (of probs / sum probs) up to the relative factors
+   cf_lo n = (1 - 2^-53)^(n+1) / (1 + 2^-53)^n  and  cf_hi n = (1 + 2^-53)^(n+1) / (1 - 2^-53)^n, n classes *)
+Theorem C15_choice_float_cdf_close : forall probs k,
+  Forall (fun p => 0 <= p)%Q probs -> (0 < sumQl probs)%Q -> k < length probs ->
+  let n := length probs in let e := cdf (exact_norm probs) (S k) in
+  (e * cf_lo n <= nth k (float_cdf probs) 0 /\ nth k (float_cdf probs) 0 <= e * cf_hi n)%Q.
+Proof. exact ChoiceFloatFacts.float_cdf_close. Qed.
+Print Assumptions C15_choice_float_cdf_close.
+
+(* hence numpy's choice IS the exact inverse CDF of the normalised probabilities for every u that is not
+   inside one of the n windows [e_k * cf_lo n, e_k * cf_hi n) around the exact boundaries *)
+Theorem C15_choice_float_close_to_exact : forall probs u,
+  Forall (fun p => 0 <= p)%Q probs -> (0 < sumQl probs)%Q ->
+  (forall k, k < length probs -> let e := cdf (exact_norm probs) (S k) in
+     (u < e * cf_lo (length probs) \/ e * cf_hi (length probs) <= u)%Q) ->
+  choice_float probs u = choice_of (exact_norm probs) u.
+Proof. exact ChoiceFloatFacts.choice_float_close_to_exact. Qed.
+Print Assumptions C15_choice_float_close_to_exact.
+
+(* three classes: the windows are narrower than 2^-50 on either side of the exact boundaries, so the classes are
+   drawn with their exact probabilities up to 3 * 2^-49 of the measure of u *)
+Theorem C15_choice_float_close_to_exact_3 : forall probs u,
+  length probs = 3 -> Forall (fun p => 0 <= p)%Q probs -> (0 < sumQl probs)%Q ->
+  (forall k, k < 3 -> ((1 # 1125899906842624) < Qabs (u - cdf (exact_norm probs) (S k)))%Q) ->
+  choice_float probs u = choice_of (exact_norm probs) u.
+Proof. exact ChoiceFloatFacts.choice_float_close_to_exact_3. Qed.
+Print Assumptions C15_choice_float_close_to_exact_3.
+
+(* any number of classes n <= 2^40: both factors are within lin_eps n = (4 n + 4) * 2^-53 of 1, so numpy's choice is the
+   exact inverse CDF unless u is within the RELATIVE distance (4 n + 4) * 2^-53 of an exact boundary e_k *)
+Theorem C15_choice_float_factors_linear : forall n, (Z.of_nat n <= 1099511627776)%Z ->
+  (1 - lin_eps n <= cf_lo n /\ cf_hi n <= 1 + lin_eps n)%Q.
+Proof. exact ChoiceFloatFacts.cf_lin. Qed.
+Print Assumptions C15_choice_float_factors_linear.
+
+Theorem C15_choice_float_close_to_exact_lin : forall probs u,
+  Forall (fun p => 0 <= p)%Q probs -> (0 < sumQl probs)%Q -> (Z.of_nat (length probs) <= 1099511627776)%Z ->
+  (forall k, k < length probs -> let e := cdf (exact_norm probs) (S k) in
+     (e * lin_eps (length probs) < Qabs (u - e))%Q) ->
+  choice_float probs u = choice_of (exact_norm probs) u.
+Proof. exact ChoiceFloatFacts.choice_float_close_to_exact_lin. Qed.
+Print Assumptions C15_choice_float_close_to_exact_lin.
+
+(* the same END TO END from the three configured probabilities (prio_probs: float sum, three rounded divisions,
+   then choice_float): the float sum cancels, the factors become nf_lo n = cf_lo n * (1 - 2^-53) / (1 + 2^-53) and
+   nf_hi n = cf_hi n * (1 + 2^-53) / (1 - 2^-53) *)
+Theorem C15_choice_float_prio_probs_cdf_close : forall user k,
+  Forall (fun p => 0 <= p)%Q user -> (0 < sumQl user)%Q -> k < length user ->
+  let n := length user in let e := cdf (exact_norm user) (S k) in
+  (e * nf_lo n <= nth k (float_cdf (prio_probs user)) 0 /\ nth k (float_cdf (prio_probs user)) 0 <= e * nf_hi n)%Q.
+Proof. exact ChoiceFloatFacts.float_cdf_prio_probs_close. Qed.
+Print Assumptions C15_choice_float_prio_probs_cdf_close.
+
+Theorem C15_choice_float_prio_probs_close : forall user u,
+  Forall (fun p => 0 <= p)%Q user -> (0 < sumQl user)%Q ->
+  (forall k, k < length user -> let e := cdf (exact_norm user) (S k) in
+     (u < e * nf_lo (length user) \/ e * nf_hi (length user) <= u)%Q) ->
+  choice_float (prio_probs user) u = choice_of (exact_norm user) u.
+Proof. exact ChoiceFloatFacts.choice_float_prio_probs_close. Qed.
+Print Assumptions C15_choice_float_prio_probs_close.
+
+(* interactive_prob, query_prob, batch_prob: outside 2^-49 of the three exact boundaries the class the generator
+   draws is the exact inverse CDF of the configured probabilities divided by their sum *)
+Theorem C15_choice_float_prio_probs_close_3 : forall user u,
+  length user = 3 -> Forall (fun p => 0 <= p)%Q user -> (0 < sumQl user)%Q ->
+  (forall k, k < 3 -> ((1 # 562949953421312) < Qabs (u - cdf (exact_norm user) (S k)))%Q) ->
+  choice_float (prio_probs user) u = choice_of (exact_norm user) u.
+Proof. exact ChoiceFloatFacts.choice_float_prio_probs_close_3. Qed.
+Print Assumptions C15_choice_float_prio_probs_close_3.
+
+(* the float cdf is sorted, so numpy's binary search (bsearch_right = npy_binsearch, side right, over the whole
+   array) returns the index of the linear scan that defines choice_float *)
+Theorem C15_choice_float_cdf_sorted : forall probs,
+  Forall (fun p => 0 <= p)%Q probs -> (0 < sumQl probs)%Q ->
+  forall i j, i <= j -> j < length (float_cdf probs) -> (nth i (float_cdf probs) 0 <= nth j (float_cdf probs) 0)%Q.
+Proof. exact ChoiceFloatFacts.float_cdf_sorted. Qed.
+Print Assumptions C15_choice_float_cdf_sorted.
+
+Theorem C15_choice_float_binsearch : forall probs u,
+  Forall (fun p => 0 <= p)%Q probs -> (0 < sumQl probs)%Q ->
+  bsearch_right (length probs) (float_cdf probs) u 0 (length probs) = choice_float probs u.
+Proof. exact ChoiceFloatFacts.choice_float_binsearch. Qed.
+Print Assumptions C15_choice_float_binsearch.
+
+(* ---- the generator with COMPUTED class draws (gen_run_u, kind 25) ---- *)
+
+(* it is gen_run on the stream in which every uniform u is replaced by priority_values[choice_float priority_probs u]:
+   all theorems above about gen_run (every stream) hold for it *)
+Theorem C15_gen_run_u_resolved : forall P user n ds out s',
+  gen_run_u P user n ds = Some (out, s') ->
+  exists dl, resolve (prio_probs user) ds = Some dl /\ length dl = length ds /\
+             gen_run P n (gen_init dl) = Some (out, s').
+Proof. exact ChoiceFloatFacts.gen_run_u_resolved. Qed.
+Print Assumptions C15_gen_run_u_resolved.
+
+(* closed loop: whatever uniforms >= 0 the bit generator delivers, every delivered pipeline carries one of the three
+   priority values, and the probability configured for its class is not 0 *)
+Theorem C15_gen_u_zero_prob_never : forall P user n ds out s',
+  length user = 3 ->
+  Forall (fun d => match d with UUniform u => (0 <= u)%Q | UNormal _ _ => True end) ds ->
+  gen_run_u P user n ds = Some (out, s') ->
+  forall p, In p (concat out) ->
+  exists k, nth_error priority_values k = Some (gp_prio p) /\ ~ (nth k user 0 == 0)%Q.
+Proof. exact ChoiceFloatFacts.gen_u_zero_prob_never. Qed.
+Print Assumptions C15_gen_u_zero_prob_never.
+
+(* the windows are needed: the normalised doubles of (0.7, 0.2, 0.1) and a u on the 2^-53 grid for which numpy
+   (float cdf) answers class 1 and the exact inverse CDF class 0 *)
+Definition ex_pp : list Q :=
+  [6305039478318695 # 9007199254740992; 7205759403792795 # 36028797018963968; 7205759403792795 # 72057594037927936]%Q.
+Example C15_ex_choice_float_differs :
+  (choice_float ex_pp (3152519739159347 # 4503599627370496), choice_of (exact_norm ex_pp) (3152519739159347 # 4503599627370496))%Q
+  = (1, 0).
+Proof. vm_compute. reflexivity. Qed.
+
+(* prio_probs: the three configured probabilities as __init__ normalises them; 0.7, 0.2, 0.1 (as doubles) give ex_pp *)
+Example C15_ex_prio_probs :
+  map Qred (prio_probs [3152519739159347 # 4503599627370496; 3602879701896397 # 18014398509481984;
+                        3602879701896397 # 36028797018963968]%Q) = ex_pp.
+Proof. vm_compute. reflexivity. Qed.
+
+(* the default mix: u = 0.35 (its double) selects the query class, value 1; (1, 0, 0) always the first class *)
+Example C15_ex_choice_float :
+  (choice_float (prio_probs [3 # 10; 1 # 10; 6 # 10]) (35 # 100), choice_float (prio_probs [1; 0; 0]) (999 # 1000),
+   choice_float (prio_probs [0; 0; 1]) 0)%Q = (1, 0, 2).
+Proof. vm_compute. reflexivity. Qed.
+
+(* computed class draws: interactive 0, query 0.5, batch 0.5; u = 0.2 -> query (value 1), u = 0.7 -> batch (value 3,
+   operator count draw 1.2 -> one operator); gap draw 0.4 -> the mean *)
+Example C15_ex_run_u :
+  option_map fst (gen_run_u ex_P [0; 1 # 2; 1 # 2]%Q 1
+                    [UUniform (1 # 5); UUniform (7 # 10); UNormal (3 # 1) (6 # 5); UNormal (2 # 1) (2 # 5)]%Q) =
+  Some [ [ {| gp_id := 1; gp_prio := 1; gp_ops := [ {| go_parents := []; go_proto := 7 |} ] |};
+           {| gp_id := 2; gp_prio := 3; gp_ops := [ {| go_parents := []; go_proto := 0 |} ] |} ] ].
 Proof. vm_compute. reflexivity. Qed.
